@@ -1,5 +1,5 @@
-CONSTANTS LOCSYMSIGHT = 3 PopVIntoConstant = TRUE NamedTmpByLastGlobal = TRUE EmptyMacroPopsOuter = TRUE
-          MaxLen = 4 MaxDepth = 2 Focus = "stack" CaseModes = {FALSE}
+CONSTANTS LOCSYMSIGHT = 3
+          MaxLen = 4 MaxDepth = 2 Focus = "stack" Devs = {"popv_const", "dd_same_name", "empty_macro_nested"} CaseModes = {FALSE}
 SPECIFICATION Spec
 INVARIANTS LookupAgreesWithManual ExtraPassAgrees ConvergesInTwo StackMirrorsText
 PROPERTIES ConstNeverChanges
